@@ -103,8 +103,11 @@ def nbs_bct(x, y, thresh, k=1000, tail='both', paired=False, verbose=False, seed
     def ttest2_stat_only(x, y, tail):
         t = np.mean(x) - np.mean(y)
         n1, n2 = len(x), len(y)
-        s = np.sqrt(((n1 - 1) * np.var(x, ddof=1) + (n2 - 1)
-                     * np.var(y, ddof=1)) / (n1 + n2 - 2))
+        # a constant sample has variance exactly 0 (np.var of a constant that is
+        # not exactly representable, e.g. 0.1, is ~1e-34 rather than 0)
+        vx = np.var(x, ddof=1) if np.ptp(x) else 0.0
+        vy = np.var(y, ddof=1) if np.ptp(y) else 0.0
+        s = np.sqrt(((n1 - 1) * vx + (n2 - 1) * vy) / (n1 + n2 - 2))
         denom = s * np.sqrt(1 / n1 + 1 / n2)
         if denom == 0:
             return 0
@@ -116,9 +119,12 @@ def nbs_bct(x, y, thresh, k=1000, tail='both', paired=False, verbose=False, seed
             return t / denom
 
     def ttest_paired_stat_only(A, B, tail):
-        n = len(A - B)
+        d = A - B
+        n = len(d)
         df = n - 1
-        sample_ss = np.sum((A - B)**2) - np.sum(A - B)**2 / n
+        # two-pass sum of squares (the one-pass form cancels catastrophically and
+        # can go negative); exactly 0 for a constant difference
+        sample_ss = np.sum((d - np.mean(d))**2) if np.ptp(d) else 0.0
         unbiased_std = np.sqrt(sample_ss / (n - 1))
         z = np.mean(A - B) / unbiased_std
         t = z * np.sqrt(n)
